@@ -394,6 +394,9 @@ def _safeFormat(fmtString: str, fmtDict: Dict[str, Any]) -> str:
                     "MESSAGE DETAILS, MESSAGE LOST"
                 )
 
+    if isinstance(text, bytes):
+        # A bytes format string formats to bytes.
+        text = reflect.safe_str(text)
     return text
 
 
